@@ -1,6 +1,159 @@
-/- C09 — model not written yet (stub so that the driver target exists). -/
-namespace Nitime.C09
+/-
+C09 — the FFT cache (`cache_fft`, `cache_to_*`, Sparse/SeedCoherenceAnalyzer): executable driver of
+the cache model in `CohBase.lean` (instance `Cx`).  The model is the INTENDED behaviour (the cache
+is an optimisation whose contract is equality with the dense Welch path); the places where today's
+code departs from it have `…Current` variants in `CohBase.lean` and counterexample theorems.
 
-def handle (_args : List String) : String := "bad-op"
+Line protocol (after the property id):
+  cache <what> <NFFT> <noverlap|dcache> <Fs> <win> <scale_by_freq 0/1> <prefer_speed 0/1> <lb> <ub> <ij> <chan0> …
+      what ∈ freqs | coherency | psd | relphase | phase     (answer: `ok <intended> <current>`) ;  ij = `i:j;i:j;…`
+  seed <NFFT> <noverlap|dcache> <Fs> <win> <sbf> <psm> <lb> <ub> <nseed> <seed chans…> <target chans…>
+      nseed = 0 means a 1-d seed (one channel, result squeezed)
+  dense <NFFT> <noverlap|dfunc> <Fs> <win> <lb> <ub> <ij> <chan0> …    (coherency through welchBin + coherencySpec,
+      restricted to the band the dense frequency grid selects; used to run the refinement on concrete inputs)
+-/
+import Nitime.Model.CohBase
+
+namespace Nitime.C09
+open Nitime.Coh Nitime.Coh.CScalar
+
+def parseUb? (s : String) : Option (Option Float) :=
+  if s = "none" then some none else (Proto.parseFloat? s).map some
+
+def parseWin? (s : String) (NFFT : Nat) : Option (List Cx) :=
+  if s = "hann" then some ((hanning NFFT).map Cx.ofF)
+  else (Proto.parseFloatList? s).map (·.map Cx.ofF)
+
+def parsePairs? (s : String) : Option (List (Nat × Nat)) :=
+  (s.splitOn ";").mapM fun t => match t.splitOn ":" with
+    | [a, b] => do pure (← a.toNat?, ← b.toNat?)
+    | _ => none
+
+/-- frequency grid of the cache.  Even NFFT: the source's `np.linspace(0, Fs/2, NFFT/2+1)`, evaluated
+    in its own order (bit-exact, so that band edges on the grid fall on the same side); odd NFFT: the
+    true grid k·Fs/NFFT of the dense path (the source's linspace is wrong there — recorded finding). -/
+def cacheFreqs (Fs : Float) (NFFT : Nat) : List Float :=
+  if NFFT % 2 = 0 then getFreqsCurrent Fs NFFT else getFreqs Fs NFFT
+
+/-- `np.fft.fftfreq(NFFT, 1/Fs)[:numFreqs]` (the dense grid, bit for bit) -/
+def mlabFreqs (Fs : Float) (NFFT : Nat) : List Float :=
+  let val := 1.0 / (NFFT.toFloat * (1.0 / Fs))
+  (List.range (nFreq NFFT)).map fun k => k.toFloat * val
+
+def uniqSorted (xs : List Nat) : List Nat :=
+  let m := xs.foldl max 0
+  (List.range (m + 1)).filter fun c => xs.contains c
+
+structure Cfg where
+  NFFT : Nat
+  step : Nat
+  Fs : Float
+  w : List Cx
+  sbf : Bool
+  psm : Bool
+  lb : Float
+  ub : Option Float
+
+def parseCfg? (sN sO sFs sWin sSbf sPsm sLb sUb : String) (dflt : Nat → Nat) : Option (Except String Cfg) := do
+  let NFFT ← sN.toNat?
+  let nov ← (if sO = "dcache" ∨ sO = "dfunc" then some (dflt NFFT) else sO.toNat?)
+  let Fs ← Proto.parseFloat? sFs
+  let lb ← Proto.parseFloat? sLb
+  let ub ← parseUb? sUb
+  if NFFT = 0 ∨ nov ≥ NFFT then return .error "err ValueError"
+  let w ← parseWin? sWin NFFT
+  if w.length ≠ NFFT then return .error "err AssertionError"
+  return .ok { NFFT, step := NFFT - nov, Fs, w, sbf := sSbf = "1", psm := sPsm = "1", lb, ub }
+
+/-- `cur = false`: intended behaviour; `cur = true`: today's source (frequency grid from
+    `get_freqs`, default overlap ⌈NFFT/2⌉, `Pxx[[0, -1]] /= 2`).  Every line is answered with both,
+    `ok <intended> <current>`: the implementation has to agree with one of them. -/
+def cacheData (cur : Bool) (args : List String) : Option String := do
+  match args with
+  | what :: sN :: sO :: sFs :: sWin :: sSbf :: sPsm :: sLb :: sUb :: sIj :: chans =>
+    match ← parseCfg? sN sO sFs sWin sSbf sPsm sLb sUb (if cur then cacheDefaultOverlapCurrent else cacheDefaultOverlap) with
+    | .error e => return e
+    | .ok c =>
+    let ij ← parsePairs? sIj
+    let X ← parseChans? chans
+    let f := if cur then getFreqsCurrent c.Fs c.NFFT else cacheFreqs c.Fs c.NFFT
+    let (l, u) := getBounds f c.lb c.ub
+    let nb := u - l
+    let nv : Cx := normVal c.w (Cx.ofF c.Fs) c.NFFT c.sbf
+    let ch := fun (i : Nat) => X.getD i []
+    let chansUsed := uniqSorted (ij.flatMap fun (a, b) => [a, b])
+    let hdr := ""
+    match what with
+    | "freqs" => return Proto.showFloatList (f ++ (f.drop l).take nb)
+    | "coherency" =>
+        return hdr ++ showCx (ij.flatMap fun (a, b) =>
+          (List.range nb).map fun t => cacheCoherency c.psm c.w nv c.NFFT c.step (ch a) (ch b) l t)
+    | "psd" =>
+        return hdr ++ showRe (chansUsed.flatMap fun a =>
+          (List.range nb).map fun t =>
+            if cur then cachePsdCurrent c.psm c.w nv c.NFFT c.step (ch a) l nb t
+            else cachePsd c.psm c.w nv c.NFFT c.step (ch a) l t)
+    | "relphase" =>
+        return hdr ++ showRe (ij.flatMap fun (a, b) =>
+          (List.range nb).map fun t => cacheRelPhase c.psm c.w c.NFFT c.step (ch a) (ch b) l t)
+    | "phase" =>
+        return hdr ++ showRe (chansUsed.flatMap fun a =>
+          (List.range nb).map fun t => cachePhase c.w c.NFFT c.step (ch a) l t)
+    | _ => none
+  | _ => none
+
+def both (f : Bool → Option String) : Option String := do
+  let a ← f false
+  let b ← f true
+  if a.startsWith "err" ∧ a = b then return a
+  return "ok " ++ a ++ " " ++ b
+
+def handleCache (args : List String) : Option String := both fun cur => cacheData cur args
+
+def seedData (cur : Bool) (args : List String) : Option String := do
+  match args with
+  | sN :: sO :: sFs :: sWin :: sSbf :: sPsm :: sLb :: sUb :: sNs :: chans =>
+    match ← parseCfg? sN sO sFs sWin sSbf sPsm sLb sUb (if cur then cacheDefaultOverlapCurrent else cacheDefaultOverlap) with
+    | .error e => return e
+    | .ok c =>
+    let ns0 ← sNs.toNat?
+    let ns := if ns0 = 0 then 1 else ns0
+    let X ← parseChans? chans
+    let seeds := X.take ns
+    let targets := X.drop ns
+    let f := if cur then getFreqsCurrent c.Fs c.NFFT else cacheFreqs c.Fs c.NFFT
+    let (l, u) := getBounds f c.lb c.ub
+    let nb := u - l
+    let nv : Cx := normVal c.w (Cx.ofF c.Fs) c.NFFT c.sbf
+    -- the seed's FFT slices are stored under key −1; pairs are (−1, target)
+    return showCx (seeds.flatMap fun sd =>
+      targets.flatMap fun tg => (List.range nb).map fun t =>
+        cacheCoherency c.psm c.w nv c.NFFT c.step sd tg l t)
+  | _ => none
+
+def handleSeed (args : List String) : Option String := both fun cur => seedData cur args
+
+def handleDense (args : List String) : Option String := do
+  match args with
+  | sN :: sO :: sFs :: sWin :: sLb :: sUb :: sIj :: chans =>
+    match ← parseCfg? sN sO sFs sWin "1" "0" sLb sUb denseDefaultOverlap with
+    | .error e => return e
+    | .ok c =>
+    let ij ← parsePairs? sIj
+    let X ← parseChans? chans
+    let f := mlabFreqs c.Fs c.NFFT
+    let (l, u) := getBounds f c.lb c.ub
+    let ch := fun (i : Nat) => X.getD i []
+    let wb := fun (a b k : Nat) => welchBin c.w (Cx.ofF c.Fs) c.NFFT c.step (ch a) (ch b) k
+    return "ok " ++ toString l ++ " " ++ toString u ++ " " ++ showCx (ij.flatMap fun (a, b) =>
+      (List.range (u - l)).map fun t => coherencySpec (wb a b (l + t)) (wb a a (l + t)) (wb b b (l + t)))
+  | _ => none
+
+def handle (args : List String) : String :=
+  match args with
+  | "cache" :: rest => (handleCache rest).getD "bad-op"
+  | "seed" :: rest => (handleSeed rest).getD "bad-op"
+  | "dense" :: rest => (handleDense rest).getD "bad-op"
+  | _ => "bad-op"
 
 end Nitime.C09
